@@ -203,10 +203,10 @@ def _check_sig(cell, elems, ctx):
                                                                               "system": R.sysname(sysr)})
 
 
-def _mk(kind, d, elems, which="a", momentum=False, system=None):
+def _mk(kind, d, elems, which="a", momentum=False, system=None, extra=False):
     system = system or opcheck.CART[d]
     rows = lattice.rows_for(system, [e[which]["c"] for e in elems], d)
-    return lattice.make_operand(kind, system, rows, momentum)
+    return lattice.make_operand(kind, system, rows, momentum, extra=extra)
 
 
 def _expect_typeerror(ctx, what, f, op, be):
@@ -398,7 +398,10 @@ def _check_ops(cell, elems, ctx):
         A = _mk(ka, d, elems, "a", mom, sa)
         # two-dimensional operands (a 2 x 3 NumPy array, a regular 2 x 3 Awkward array) pair with each other and with objects
         for kb, momb in itertools.product(KINDS if ka in KINDS else ("regular", "np2", "object"), (False, True)):
-            B = _mk(kb, d, elems, "b", momb, R.SYSTEMS[d][zlib.crc32(cell["id"].encode()) % len(R.SYSTEMS[d])])
+            # (a generic second operand also carries a non-coordinate field: a NumPy view of a wider record, an Awkward array
+            # with a charge column)
+            B = _mk(kb, d, elems, "b", momb, R.SYSTEMS[d][zlib.crc32(cell["id"].encode()) % len(R.SYSTEMS[d])],
+                    extra=(not momb and kb not in ("object", "record")))
             be = f"{ka}+{kb}"
             pairs = [("a+b", lambda: A + B, lambda: A.add(B)), ("a-b", lambda: A - B, lambda: A.subtract(B)),
                      ("a@b", lambda: A @ B, lambda: A.dot(B)), ("a==b", lambda: A == B, lambda: A.equal(B)),
